@@ -50,9 +50,13 @@ class D:
         return self._draw(strategy)
 
 
-def draw_cfg(d, flavours=FLAVOURS, **extra):
+def draw_cfg(d, flavours=FLAVOURS, allow_ci=False, **extra):
     L, R = d.choice(flavours)
     cfg = {"L": L, "R": R, "salt": d.int(0, 7)}
+    if allow_ci and L == "id" and R == "id" and d.chance(1, 3):
+        # both providers case-insensitive (id-style only: the path-style case-insensitive mock is open finding KF-22);
+        # users then spell existing folders and files in arbitrary case
+        cfg["ci"] = True
     # provider-side event filtering (id-style sides only; the mock ignores it for path-style) and roots handed to the
     # engine by object id as well as by path
     if d.chance(1, 5):
@@ -61,6 +65,33 @@ def draw_cfg(d, flavours=FLAVOURS, **extra):
         cfg["root_oids"] = True
     cfg.update(extra)
     return cfg
+
+
+def _variant(d, path):
+    return "/".join(c.upper() if c and d.chance(1, 4) else c for c in path.split("/"))
+
+
+def spelled(d, world, c):
+    """How the user spells the op `c` (model spelling: lower case).  Case-sensitive cases: unchanged.  Case-insensitive
+    cases: every component that names an EXISTING object may be upper-cased; the leaf of a new name stays as it is."""
+    if not getattr(world, "ci", False):
+        return list(c)
+    op = c[0]
+    if op in ("create", "mkdir"):
+        par, _, leaf = c[1].rpartition("/")
+        return [op, _variant(d, par) + "/" + leaf] + list(c[2:])
+    if op == "rename":
+        par, _, leaf = c[2].rpartition("/")
+        return [op, _variant(d, c[1]), _variant(d, par) + "/" + leaf]
+    return [op, _variant(d, c[1])] + list(c[2:])
+
+
+def lower_op(cfg, op):
+    """Model spelling of a user op taken from a trace (lower case when the providers are case-insensitive)."""
+    if not cfg.get("ci"):
+        return tuple(op)
+    return tuple(x.lower() if isinstance(x, str) and x.startswith("/") and i in (1, 2) and (i == 1 or op[0] == "rename") else x
+                 for i, x in enumerate(op))
 
 
 def content_for(d, world, sizes):
@@ -72,6 +103,16 @@ def content_for(d, world, sizes):
 def emit_user_op(d, world, acts, side, kinds=OP_KINDS, sizes=False):
     """Draw one hazard-free user op for `side`; returns the op tuple or None."""
     kinds = list(kinds)
+    if getattr(world, "ci", False) and d.chance(1, 8):
+        # case-only rename of a file (case-insensitive providers): same object, same name modulo case
+        files = [f for f in world.side[side].files() if world.hazard(side, "write", f, "x") is None]
+        if files:
+            f = d.choice(files)
+            par, _, leaf = f.rpartition("/")
+            acts.append(["u", side, "rename", _variant(d, f), _variant(d, par) + "/" + leaf.upper()])
+            world.touch(side, f)
+            world.recent = (getattr(world, "recent", []) + [f])[-3:]
+            return ("case_rename", f)
     while kinds:
         kind = d.weighted(kinds)
         kinds = [(k, w) for k, w in kinds if k != kind]
@@ -95,7 +136,7 @@ def emit_user_op(d, world, acts, side, kinds=OP_KINDS, sizes=False):
         c = d.choice(allowed)
         if c[0] in ("create", "write"):
             c = (c[0], c[1], content_for(d, world, sizes))
-        acts.append(["u", side] + list(c))
+        acts.append(["u", side] + spelled(d, world, c))
         world.apply(side, *c)
         world.recent = (getattr(world, "recent", []) + [c[-1] if c[0] == "rename" else c[1]])[-3:]
         return c
@@ -113,7 +154,7 @@ def _try(world, acts, side, op):
     if h is not None:
         world.excluded[h] += 1
         return False
-    acts.append(["u", side] + list(op))
+    acts.append(["u", side] + (spelled(world._d, world, op) if getattr(world, "ci", False) else list(op)))
     world.apply(side, *op)
     world.recent = (getattr(world, "recent", []) + [op[-1] if op[0] == "rename" else op[1]])[-3:]
     return True
@@ -295,6 +336,10 @@ def gen_history(d, cfg, *, sides=(0, 1), n_ops=(3, 8), hazards=None, with_base=N
     if world_init:
         world_init(world)
     world.tempo = d.choice((0, 0.02, 0.3))
+    world.ci = bool(cfg.get("ci"))
+    if world.ci:
+        world.strict_reuse = True       # open finding KF-46: name takeover spelled in another case
+    world._d = d
     acts = []
     if with_base is None:
         with_base = d.chance(4, 5)
@@ -348,11 +393,18 @@ def envelope_ok(trace, hazards=None, sides=(0, 1), world_init=None):
     world = World(path_style=(cfg.get("L") == "path", cfg.get("R") == "path"), hazards=hazards)
     if world_init:
         world_init(world)
+    if cfg.get("ci"):
+        world.strict_reuse = True
     for a in trace["acts"]:
         if a[0] == "u":
             if a[1] not in sides:
                 return False
-            op = tuple(a[2:])
+            op = lower_op(cfg, a[2:])
+            if cfg.get("ci") and op[0] == "rename" and op[1] == op[2]:
+                if world.hazard(a[1], "write", op[1], "x") is not None or not world.side[a[1]].is_file(op[1]):
+                    return False
+                world.touch(a[1], op[1])
+                continue
             try:
                 world.side[a[1]].check(*op)
             except ModelInvalid:
